@@ -337,7 +337,7 @@ func chanCompare(c *lib.Ctx, prefix string, obs [][]string, inputs []any, family
 	}
 	if c.ModelPath == "" {
 		r.Skip("no model driver given (--model): %d recorded schedules were not compared with chan.run", len(obs))
-		r.Histogram["chan-model/skipped/no-driver"] += len(obs)
+		r.HistAdd("chan-model/skipped/no-driver", len(obs))
 		return 0
 	}
 	cfg := gCurCfg(c, "chan", "111101")
@@ -373,7 +373,7 @@ func chanCompare(c *lib.Ctx, prefix string, obs [][]string, inputs []any, family
 		compared++
 		r.Hist("chan-model/compared/" + keptF[i])
 		for k, v := range lines[i].Policies {
-			r.Histogram["chan-model/step/"+k] += v
+			r.HistAdd("chan-model/step/"+k, v)
 		}
 		if d := chanDiff(lines[i], out[i]); d == "" {
 			r.Hist("chan-model/agrees/" + keptF[i])
